@@ -554,4 +554,5 @@ PROPS['C14'].setdefault('scope', {})['TA-NUMLOSS'] = _not(
 # vacuity minima tolerate refactorings that merge or split obligations: they
 # only have to notice that the analysis lost sight of the code altogether
 for _p in PROPS.values():
-    _p['minima'] = {k: v // 2 for k, v in _p['minima'].items() if v // 2 >= 2}
+    _p['minima'] = {k: max(2, v // 4) for k, v in _p['minima'].items()
+                    if v // 2 >= 2}
